@@ -155,7 +155,9 @@ class C08:
     assumptions = [
         "outputs are picklable and never None (None is the protocol's poison pill)",
         "multiprocessing primitives are modelled (sim/prims.py) after CPython 3.12 queues.py/process.py/connection.py",
-        "threads of the parent process are pre-empted at primitive operations, not at arbitrary bytecodes",
+        "threads of the parent process are pre-empted at primitive operations and at planned bytecodes (uniform, targeted and dense plans via "
+        "sys.monitoring) of Multiprocessor.filter, its completion callbacks, Stopper, UniqueKey, MyProcessLine/ProcessLine/ThreadLine start/join code; "
+        "other parent-side code is not pre-empted between bytecodes",
         "no kill -9 / KeyboardInterrupt / non-zero exit codes of workers (not in the property's quantifier)",
     ]
     real_components = ["coba.pipes.multiprocessing.Multiprocessor", "MyProcessLine", "coba.pipes.lines.ProcessLine",
